@@ -36,6 +36,8 @@ pub enum IdleTrigger {
     Change,
     /// `noidle`
     Noidle,
+    /// the server refuses idle with an ACK (injected)
+    Denied,
 }
 
 #[derive(Clone, Debug, PartialEq, Eq)]
@@ -120,6 +122,10 @@ pub struct SimMpd {
     pub noidle_answered: u64,
     pub idle_immediate: u64,
     now_ms: u64,
+    /// injected: idle is answered with this ACK code
+    pub idle_denied: Option<u64>,
+    /// per-URI count of chunk requests served (for `chunk_caps`)
+    chunk_counts: std::collections::BTreeMap<String, usize>,
 }
 
 pub fn tokenize(line: &[u8]) -> Result<(String, Vec<Vec<u8>>), String> {
@@ -271,6 +277,8 @@ impl SimMpd {
             noidle_answered: 0,
             idle_immediate: 0,
             now_ms: 0,
+            idle_denied: None,
+            chunk_counts: Default::default(),
         }
     }
 
@@ -339,6 +347,34 @@ impl SimMpd {
             return vec![self.idle_reply(IdleTrigger::Change)];
         }
         Vec::new()
+    }
+
+    /// Injected: refuse idle from now on; a pending idle is refused at once.
+    pub fn deny_idle(&mut self, code: u64, now_ms: u64) -> Vec<Action> {
+        self.now_ms = now_ms;
+        self.idle_denied = Some(code);
+        if self.idle_waiting && !self.closed {
+            self.idle_waiting = false;
+            return vec![self.denied_reply(code)];
+        }
+        Vec::new()
+    }
+
+    fn denied_reply(&mut self, code: u64) -> Action {
+        let e = ack(code, 0, "idle", "you don't have permission for \"idle\"");
+        let mut bytes = Vec::new();
+        encode_ack(&e, &mut bytes);
+        Action::Write(
+            bytes,
+            RespMeta {
+                kind: RespKind::Idle {
+                    changes: Vec::new(),
+                    trigger: IdleTrigger::Denied,
+                },
+                payloads: Vec::new(),
+                close_after: None,
+            },
+        )
     }
 
     fn idle_reply(&mut self, trigger: IdleTrigger) -> Action {
@@ -437,7 +473,9 @@ impl SimMpd {
                         format!("unexpected arguments to idle: {:?}", text),
                     );
                 }
-                if self.flags.is_empty() {
+                if let Some(code) = self.idle_denied {
+                    vec![self.denied_reply(code)]
+                } else if self.flags.is_empty() {
                     self.idle_waiting = true;
                     Vec::new()
                 } else {
@@ -617,6 +655,9 @@ impl SimMpd {
                         return Err(ack(5, index, "", "unknown command \"readpicture\""));
                     }
                     if let Some(c) = pic.readpicture_error {
+                        if pic.header_before_error {
+                            partial.extend_from_slice(b"size: 4242\n");
+                        }
                         return Err(ack(c, index, "readpicture", "forced error"));
                     }
                     match pic.embedded {
@@ -625,6 +666,9 @@ impl SimMpd {
                     }
                 } else {
                     if let Some(c) = pic.albumart_error {
+                        if pic.header_before_error {
+                            partial.extend_from_slice(b"size: 4242\n");
+                        }
                         return Err(ack(c, index, "albumart", "forced error"));
                     }
                     match pic.cover {
@@ -638,13 +682,25 @@ impl SimMpd {
                 let size = data.len() as u64;
                 if let Some((threshold, code)) = pic.later_error {
                     if offset > 0 && offset >= threshold && offset < size {
+                        if pic.header_before_error {
+                            partial.extend_from_slice(format!("size: {}\n", size).as_bytes());
+                            if let Some(m) = &mime {
+                                partial.extend_from_slice(format!("type: {}\n", m).as_bytes());
+                            }
+                        }
                         return Err(ack(code, index, &word, "forced error on a later chunk"));
                     }
                 }
                 if offset > size {
                     return Err(ack(2, index, &word, "Bad file offset"));
                 }
-                let n = (self.binary_limit as u64).min(size - offset) as usize;
+                let mut n = (self.binary_limit as u64).min(size - offset) as usize;
+                if !pic.chunk_caps.is_empty() && n > 0 {
+                    let c = self.chunk_counts.entry(uri.clone()).or_insert(0);
+                    let cap = pic.chunk_caps[*c % pic.chunk_caps.len()].max(1);
+                    *c += 1;
+                    n = n.min(cap);
+                }
                 let chunk = &data[offset as usize..offset as usize + n];
                 let mut f = CFrame::default();
                 let mut bytes = Vec::new();
